@@ -63,6 +63,7 @@ type E1Case struct {
 	C05      *C05Spec     `json:"c05,omitempty"`      // lifecycle probe configuration
 	Excluded int          `json:"excluded,omitempty"` // generator: items replaced because they belong to a listed finding
 	HTTP     *C06HTTP     `json:"http,omitempty"`     // C06: the HTTP codec's "Connection: close" path
+	Stress   int          `json:"stress,omitempty"`   // C02: > 0 = rounds of a real-goroutine stress (no scheduler)
 }
 
 type e1Call struct {
